@@ -39,7 +39,10 @@ import (
 	"bytes"
 	"encoding/hex"
 	"encoding/json"
+	"math"
 	"os"
+	"strconv"
+	"strings"
 )
 
 type verifRTNV struct {
@@ -159,6 +162,116 @@ func verifStrEq(a, b string) bool   { return a == b }
 func verifProgress(measure func() int, fns ...string) {}
 func verifAllocBound(n int) { verifRTAllocLimit = n }
 func verifLoopBound(fnSuffix string, iterations int) {}
+
+// ---- JSON (native twin of the rope checker): encoding/json does the parsing ----
+type verifRTDoc struct {
+	valid bool
+	root  interface{}
+}
+
+var verifRTDocs []verifRTDoc
+
+func verifJSONParse(b []byte) int {
+	d := verifRTDoc{valid: json.Valid(b)}
+	if d.valid {
+		dec := json.NewDecoder(bytes.NewReader(b))
+		dec.UseNumber()
+		if err := dec.Decode(&d.root); err != nil {
+			d.valid = false
+		}
+	}
+	verifRTDocs = append(verifRTDocs, d)
+	return len(verifRTDocs)
+}
+func verifJSONValid(h int) bool { return verifRTDocs[h-1].valid }
+func verifRTGet(h int, path string) (interface{}, bool) {
+	d := verifRTDocs[h-1]
+	if !d.valid {
+		return nil, false
+	}
+	cur := d.root
+	for _, part := range strings.Split(path, ".") {
+		if part == "" {
+			continue
+		}
+		name := part
+		var idxs []int
+		for strings.HasSuffix(name, "]") {
+			i := strings.LastIndexByte(name, '[')
+			v, _ := strconv.Atoi(name[i+1 : len(name)-1])
+			idxs = append([]int{v}, idxs...)
+			name = name[:i]
+		}
+		if name != "" {
+			m, ok := cur.(map[string]interface{})
+			if !ok {
+				return nil, false
+			}
+			cur, ok = m[name]
+			if !ok {
+				return nil, false
+			}
+		}
+		for _, ix := range idxs {
+			a, ok := cur.([]interface{})
+			if !ok || ix >= len(a) {
+				return nil, false
+			}
+			cur = a[ix]
+		}
+	}
+	return cur, true
+}
+func verifJSONHas(h int, path string) bool { _, ok := verifRTGet(h, path); return ok }
+func verifJSONLen(h int, path string) int {
+	v, ok := verifRTGet(h, path)
+	if !ok {
+		return -1
+	}
+	switch x := v.(type) {
+	case []interface{}:
+		return len(x)
+	case map[string]interface{}:
+		return len(x)
+	}
+	return 0
+}
+func verifJSONNum(h int, path string, v uint64, signed bool) bool {
+	x, ok := verifRTGet(h, path)
+	n, isN := x.(json.Number)
+	if !ok || !isN {
+		return false
+	}
+	if signed {
+		return string(n) == strconv.FormatInt(int64(v), 10)
+	}
+	return string(n) == strconv.FormatUint(v, 10)
+}
+func verifJSONFloat(h int, path string, bits uint64, width int) bool {
+	x, ok := verifRTGet(h, path)
+	n, isN := x.(json.Number)
+	if !ok || !isN {
+		return false
+	}
+	f, err := strconv.ParseFloat(string(n), width)
+	if err != nil {
+		return false
+	}
+	if width == 32 {
+		return uint64(math.Float32bits(float32(f))) == bits
+	}
+	return math.Float64bits(f) == bits
+}
+func verifJSONStr(h int, path string, s string) bool {
+	x, ok := verifRTGet(h, path)
+	t, isS := x.(string)
+	return ok && isS && t == s
+}
+func verifJSONBool(h int, path string, b bool) bool {
+	x, ok := verifRTGet(h, path)
+	t, isB := x.(bool)
+	return ok && isB && t == b
+}
 `
 
 const rtTest = `//go:build verif
